@@ -39,16 +39,15 @@ func (stdin *Stdin) GetDataType() (dt string) {
 	for {
 		select {
 		case <-stdin.ctx.Done():
-			// This should probably be locked to avoid a data race, but I'm also
-			// quite scared locking it might also cause deadlocks given processes
-			// can be terminated at random points by users. Thus I'm think those
-			// edge cases of a data race will have more desirable side effects
-			// than those edge case of deadlocks.
+			// Locked to avoid a data race with SetDataType. The mutex is only
+			// ever held for short, non-blocking critical sections so this
+			// cannot deadlock, even if processes are terminated at random
+			// points by users.
 			//stdin.dtLock.Lock()
-			//stdin.mutex.Lock()
+			stdin.mutex.Lock()
 			dt = stdin.dataType
 			//stdin.dtLock.Unlock()
-			//stdin.mutex.Unlock()
+			stdin.mutex.Unlock()
 			if dt != "" {
 				return dt
 			}
